@@ -252,6 +252,11 @@ func (e *Engine) checkProperty(id, tier string, seed int, only string) int {
 	var names []string
 	for n, c := range e.contracts {
 		if hasProp(c.Props, id) && (only == "" || strings.Contains(n, only)) {
+			if c.Trusted {
+				// contract assumed, body not verified: reported under trusted_base
+				e.usedContracts[n] = true
+				continue
+			}
 			names = append(names, n)
 		}
 	}
